@@ -34,6 +34,7 @@ func singleDeviationCfgs() []Cfg {
 		mk(func(c *Cfg) { c.Sync = true }),
 		mk(func(c *Cfg) { c.IVSet = true; c.IV = 1 }),
 		mk(func(c *Cfg) { c.IVSet = true; c.IV = 7 }),
+		mk(func(c *Cfg) { c.IVSet = true; c.IV = 7; c.IVSetter = true }),
 		mk(func(c *Cfg) { c.Backend = "memdb" }),
 		mk(func(c *Cfg) { c.Backend = "prefix" }),
 		mk(func(c *Cfg) { c.Backend = "leveldb" }),
